@@ -42,7 +42,7 @@ Record bug := mkbug {
   b_labels : list str; b_title : str;
   b_actors : list ident; b_participants : list ident;
   b_meta : list (str * str);     (* metadata of the create operation *)
-  b_words : list str             (* tokens of title and comments, as analysed by the full-text index *)
+  b_texts : list (list str)      (* the indexed texts (title, every comment), each as its list of tokens *)
 }.
 
 Fixpoint assoc (k : str) (l : list (str * str)) : option str :=
@@ -82,9 +82,23 @@ Definition matches (q : query) (b : bug) : bool :=
   and_match (if q_nolabel q then [f_nolabel] else []) b &&
   and_match (map f_title (q_title q)) b.
 
-(* full-text search: the index answers with the bugs containing any of the terms *)
+(* full-text search (repository/index_bleve.go Search over the "bugs" index): a term without U+0020 is looked up
+   as a token, a term with spaces as a phrase (its words in a row inside one indexed text); the index answers
+   with the bugs matching any of the terms *)
+Fixpoint words_go (s cur : str) : list str :=
+  match s with
+  | [] => match cur with [] => [] | _ => [rev cur] end
+  | r :: t => if N.eqb r 32 then match cur with [] => words_go t [] | _ => rev cur :: words_go t [] end
+              else words_go t (r :: cur)
+  end.
+Definition term_words (t : str) : list str := words_go t [].
+Fixpoint wprefixb (p l : list str) : bool :=
+  match p, l with [], _ => true | x :: p', y :: l' => str_eqb x y && wprefixb p' l' | _ :: _, [] => false end.
+Fixpoint winfixb (p l : list str) : bool := wprefixb p l || match l with [] => false | _ :: t => winfixb p t end.
+Definition term_found (t : str) (b : bug) : bool :=
+  match term_words t with [] => false | ws => existsb (winfixb ws) (b_texts b) end.
 Definition found (q : query) (b : bug) : bool :=
-  match q_search q with [] => true | ts => existsb (fun t => existsb (str_eqb t) (b_words b)) ts end.
+  match q_search q with [] => true | ts => existsb (fun t => term_found t b) ts end.
 
 Definition selected (q : query) (b : bug) : bool := found q b && matches q b.
 
